@@ -24,35 +24,25 @@ Print Assumptions C37_name_unpack_any_input_in_bounds.
 
 (* ---------- 2. faithful decoding of names, with and without compression ---------- *)
 (* `name_at buf d off labels e`: the datagram holds at `off` the labels in line, ended by the root label or by a
-   pointer to where the rest of the name is encoded (<= d pointers in a row); then the decoder yields the labels joined
-   by dots, leaves the offset behind the in-line part, and counts wire(labels) octets.
-   PARTIAL: a pointer's target must denote at least one label; see the next theorem. *)
-Theorem C37_name_layout_decodes_partial : forall buf d off labels e ns cap,
-  name_at buf d off labels e ->
+   pointer to where the rest of the name (possibly just the root label) is encoded, <= d pointers in a row; then the
+   decoder yields the labels joined by dots, leaves the offset behind the in-line part, and counts wire(labels) octets.
+   labels_nz: no NUL octet inside a label (the result is a C string) *)
+Theorem C37_name_layout_decodes : forall buf d off labels e ns cap,
+  name_at buf d off labels e -> labels_nz labels ->
   (d <= 65)%nat -> wire labels < ns -> ns <= cap -> ns <= 65536 ->
   name_unpack buf (lenN buf) off ns cap 0 = Ok (join_dots labels, e, wire labels).
 Proof. exact name_unpack_decodes. Qed.
-Print Assumptions C37_name_layout_decodes_partial.
-
-(* FINDING: the full statement (plain RFC 1035 reading, name_at_gen false) is false: labels followed by a pointer to a
-   root label decode with a trailing dot ("www." for 03 'www' c0 04 with a zero octet at offset 4) *)
-Theorem C37_name_ptr_to_root_refuted :
-  exists buf d off labels e,
-    name_at_gen false buf d off labels e /\ (d <= 65)%nat /\ wire labels < 256 /\
-    name_unpack buf (lenN buf) off 256 256 0 = Ok (join_dots labels ++ [46], e, wire labels) /\
-    message_unpack buf = Ok (UAnswers (mkHdr 5878 1 0 0 0 1 1 0 1 0 0 0) (mkQ (join_dots labels ++ [46]) 1 1) []).
-Proof. exact name_ptr_to_root_refuted. Qed.
-Print Assumptions C37_name_ptr_to_root_refuted.
+Print Assumptions C37_name_layout_decodes.
 
 (* ---------- 3. faithful decoding of whole messages ---------- *)
 (* any datagram laid out as header / one question / ancount records (names in any mix of in-line labels and
    compression pointers, A/AAAA/CNAME/other rdata opaque, PTR rdata a name inside its rdlength), followed by anything:
-   the decoded header, question and records are exactly those laid out. PARTIAL only through name_at (above). *)
-Theorem C37_message_layout_decodes_partial : forall buf h q rrs,
+   the decoded header, question and records are exactly those laid out *)
+Theorem C37_message_layout_decodes : forall buf h q rrs,
   msg_at buf h q rrs ->
   message_unpack buf = Ok (if h_rcode h =? 0 then UAnswers h q rrs else URcode h q).
 Proof. exact message_unpack_at. Qed.
-Print Assumptions C37_message_layout_decodes_partial.
+Print Assumptions C37_message_layout_decodes.
 
 (* the reference encoder (enc_msg: header with any Z bits, question, records whose owner is written in full or as a
    pointer to the question name, PTR rdata as a name, any trailer): decode (encode m) = m *)
@@ -110,16 +100,24 @@ Definition ex_www : bytes := [119;119;119].
 Definition ex_com : bytes := [99;111;109].
 (* 12 header octets, "www" root at 12, then "a" + pointer to 12 at offset 17 *)
 Definition ex_buf : bytes := [0;0;0;0;0;0;0;0;0;0;0;0; 3;119;119;119;0; 1;97;192;12].
-Example C37_ex_name_layout_with_pointer : name_at ex_buf 1 17 [[97]; ex_www] 21.
+Example C37_ex_name_layout_with_pointer : name_at ex_buf 1 17 [[97]; ex_www] 21 /\ labels_nz [[97]; ex_www].
 Proof.
+  split; [|repeat constructor].
   apply na_label with (l := [97]); try (cbn; lia); try reflexivity.
-  apply (na_ptr true ex_buf 0 19 192 12 [ex_www] 17); try reflexivity; [discriminate|].
+  apply (na_ptr ex_buf 0 19 192 12 [ex_www] 17); try reflexivity.
   apply na_label with (l := ex_www); try (cbn; lia); try reflexivity.
-  apply (na_root true ex_buf 0 16). reflexivity.
+  apply (na_root ex_buf 0 16). reflexivity.
 Qed.
 Example C37_ex_name_layout_decoded :
   name_unpack ex_buf (lenN ex_buf) 17 256 256 0 = Ok ([97;46;119;119;119], 21, 6).
 Proof. vm_compute. reflexivity. Qed.
+(* regression for the repaired defect (/repo 7524772): "www" followed by a pointer to a root label (offset 4 of the
+   header) is a layout of the name www, and decodes as "www", not "www." *)
+Example C37_ex_pointer_to_root_label :
+  name_at ptr_root_buf 1 12 [ex_www] 18 /\
+  name_unpack ptr_root_buf (lenN ptr_root_buf) 12 256 256 0 = Ok (ex_www, 18, 4) /\
+  message_unpack ptr_root_buf = Ok (UAnswers (mkHdr 5878 1 0 0 0 1 1 0 1 0 0 0) (mkQ ex_www 1 1) []).
+Proof. split; [exact ptr_root_layout|]. split; vm_compute; reflexivity. Qed.
 
 Definition ex_h : header := mkHdr 4660 1 0 0 0 1 1 0 1 2 0 0.
 Definition ex_ql : list bytes := [ex_www; ex_com].
